@@ -3,6 +3,7 @@ import os, re
 from checks_path import *  # noqa
 from checklib import Tie, Failure, HarnessError, sh
 from edges_common import run_edges, replay_edges
+from life_common import run_life, replay_life
 
 PROPERTY = 'C23'
 GEN = ['Ids', 'Edge']
@@ -13,9 +14,24 @@ EXPLANATION = ('What is logic is proved: make_id/split_id round trip, injectivit
                'provenance and lifetime extension are runtime facts no Lean model exhibits: PARTIAL. To be able to EXHIBIT a failure the check '
                'also runs generated engine histories (requests, writes, evictions, cycle iterations, struct deletions, interned reclamation, '
                'injected panics) on real salsa under valgrind memcheck with leak checking (invalid read/write, use after free, double free, '
-               'definite leaks after the database is dropped) — a search aid, not part of the proof.')
+               'definite leaks after the database is dropped) — a search aid, not part of the proof. Those engine histories copy every '
+               'result out (`returns(copy)`), so a third tie (`vh life`) covers the clause "every reference returned by a tracked function '
+               'or field getter keeps its value until the database is next borrowed mutably": all its items hand out references '
+               '(returns(ref) functions, tracked and untracked struct fields, a memo stored on a tracked struct, an lru function, an '
+               'interned field, a fixpoint pair), the runner RETAINS every reference until the next `&mut` op (Rust enforces that it '
+               'cannot keep one longer) and after every op revalidates all of them: the payload type logs its own Drop, so a value '
+               'destroyed or overwritten while a reference to it is retained (deletion of a struct already read in this revision, a memo '
+               'freed instead of deferred, a slot reused too early) is reported as `retained-reference-invalid` without touching freed '
+               'memory; `peek` reads structs of the previous revision through the ingredient entries before their creator re-ran; after '
+               'drop-db every payload must have been dropped exactly once (`leak` / `double-drop`); salsa refusing with a panic '
+               '(`cannot delete read-locked id`) is a legitimate outcome. A sample of the same histories also runs under valgrind.')
 ASSUMPTIONS = ['pointer-level safety is not modelled; a concrete memory error can only be exhibited by running the implementation '
-               '(valgrind memcheck on sampled histories)', 'multi-threaded memory safety (data races) is not examined']
+               '(valgrind memcheck on sampled histories)', 'multi-threaded memory safety (data races) is not examined',
+               'retained-reference revalidation is single-threaded and observes values through the Drop of the payload type: memory '
+               'released without running Drop, or read only by salsa itself (e.g. an old memo freed immediately on replacement, which '
+               'no single-threaded caller can still reference), is visible to the valgrind sample only',
+               '`peek` uses salsa::plumbing (ingredient `entries`, `FromId`) to obtain ids of the previous revision; no public safe API '
+               'hands out such ids']
 
 def run_valgrind(ctx):
     t = Tie('valgrind-seq')
@@ -45,7 +61,9 @@ def run_valgrind(ctx):
     return t
 
 def ties(ctx):
-    return [run_edges(ctx, set('MXDA')), run_valgrind(ctx)]
+    return [run_edges(ctx, set('MXDA')), run_valgrind(ctx), run_life(ctx, 300 if ctx.tier == 'quick' else 20000)]
 
 def replay(ctx, path):
+    if path.endswith('.life.ops'):
+        return replay_life(ctx, path)
     return replay_edges(ctx, path)
